@@ -442,11 +442,98 @@ func Child(r *ev.Run, args []string) {
 		}
 	}
 	r.Count("hook_point_hits:sampler.reset.between", pointHits.Load())
+	disjointKeys(r)
+}
+
+// countCore forwards nothing; it counts per message index what reached it.
+type countCore struct {
+	zapcore.LevelEnabler
+	got []atomic.Int32
+}
+
+func (c *countCore) With([]zapcore.Field) zapcore.Core { return c }
+func (c *countCore) Check(e zapcore.Entry, ce *zapcore.CheckedEntry) *zapcore.CheckedEntry {
+	return ce.AddCore(e, c)
+}
+func (c *countCore) Write(e zapcore.Entry, _ []zapcore.Field) error {
+	c.got[int(e.Time.UnixNano()%1000)].Add(1)
+	return nil
+}
+func (c *countCore) Sync() error { return nil }
+
+// disjointKeys: on a brand-new sampler every goroutine logs its own message (its own bucket;
+// all at one level or each at its own) strictly sequentially. Each key is then used by one
+// goroutine only, so its admitted count is the sequential one, whatever the other goroutines
+// do with their keys - including the very first use of the sampler and of a level.
+func disjointKeys(r *ev.Run) {
+	runs := r.N(1500, 40000)
+	for i := 0; i < runs; i++ {
+		g := rng.For(r.Seed, "c11/disjoint", i)
+		ng := g.Range(2, 8)
+		n := rng.Pick(g, []int{1, 1, 2, 3})
+		m := rng.Pick(g, []int{0, 0, 2, 3})
+		per := g.Range(2, 12)
+		sameLevel := g.Bool()
+		// messages with pairwise different buckets
+		msgs := make([]string, ng)
+		used := map[uint32]bool{}
+		for k := range msgs {
+			for j := 0; ; j++ {
+				msg := fmt.Sprintf("disjoint-%d-%d-%d", i, k, j)
+				if b := fnv32a(msg) % 4096; !used[b] {
+					used[b] = true
+					msgs[k] = msg
+					break
+				}
+			}
+		}
+		leaf := &countCore{LevelEnabler: zapcore.DebugLevel, got: make([]atomic.Int32, ng)}
+		s := zapcore.NewSamplerWithOptions(leaf, time.Hour, n, m)
+		levels := []zapcore.Level{zapcore.DebugLevel, zapcore.InfoLevel, zapcore.WarnLevel, zapcore.ErrorLevel, zapcore.DPanicLevel, zapcore.PanicLevel, zapcore.FatalLevel}
+		var wg sync.WaitGroup
+		start := make(chan struct{})
+		for k := 0; k < ng; k++ {
+			wg.Add(1)
+			go func(k int) {
+				defer wg.Done()
+				lvl := zapcore.InfoLevel
+				if !sameLevel {
+					lvl = levels[k%len(levels)]
+				}
+				<-start
+				for j := 0; j < per; j++ {
+					// the timestamp carries the key index (mod 1000) for the counting core; all inside one tick
+					ts := time.Unix(1_700_000_000, int64(j*1000+k))
+					if ce := s.Check(zapcore.Entry{Level: lvl, Message: msgs[k], Time: ts}, nil); ce != nil {
+						ce.Write()
+					}
+				}
+			}(k)
+		}
+		close(start)
+		wg.Wait()
+		r.Eval(1)
+		r.Distinct(fmt.Sprintf("disjoint|%d|%d|%d|%d|%d|%v", i, n, m, ng, per, sameLevel))
+		r.Count("disjoint_key_runs", 1)
+		want := per
+		if per > n {
+			want = n
+			if m > 0 {
+				want += (per - n) / m
+			}
+		}
+		for k := 0; k < ng; k++ {
+			if got := int(leaf.got[k].Load()); got != want {
+				r.Violate(ev.Violation{Case: fmt.Sprintf("c11/disjoint/%d", i), Class: "sampler-disjoint-keys", Msg: fmt.Sprintf("N=%d M=%d, %d goroutines each logging its own message %d times on a fresh sampler (same level=%v): message %q was admitted %d times, the sequential count for a key used by one goroutine is %d", n, m, ng, per, sameLevel, msgs[k], got, want)})
+				break
+			}
+		}
+	}
 }
 
 // Run is the C11 monitor.
 func Run(r *ev.Run) {
-	r.Rule = "sequential: case i = f(seed,i): (N, M, tick) x 40-400 entries over 3 levels x {two messages, a constructed FNV collision, a third} with timestamps placed exactly on window ends, one nanosecond either side, equal, stepping back inside a window or jumping a tick, disabled and out-of-range levels mixed in, issued alternately through the sampler and With-derived cores; forwarded entries and (entry, decision) hook calls compared in order with a 12-line model; plus Config.Build samplers through a real Logger with a stepping clock; concurrent (race build): a window opened sequentially, then 2-16 goroutines x k entries of one key inside it, exact admitted count and one-decision/one-hook/forwarded-iff-sampled per entry; rollover storms judge the per-entry accounting only; distinct = distinct programs"
+	r.Rule = "sequential: case i = f(seed,i): (N, M, tick) x 40-400 entries over 3 levels x {two messages, a constructed FNV collision, a third} with timestamps placed exactly on window ends, one nanosecond either side, equal, stepping back inside a window or jumping a tick, disabled and out-of-range levels mixed in, issued alternately through the sampler and With-derived cores; forwarded entries and (entry, decision) hook calls compared in order with a 12-line model; plus Config.Build samplers through a real Logger with a stepping clock; concurrent (race build): a window opened sequentially, then 2-16 goroutines x k entries of one key inside it, exact admitted count and one-decision/one-hook/forwarded-iff-sampled per entry; rollover storms judge the per-entry accounting only; disjoint keys: on a fresh sampler 2-8 goroutines each log their own (non-colliding) message sequentially, per-key admitted count must be the sequential one (covers concurrent first use of the sampler and of a level); distinct = distinct programs"
 	n := r.N(3000, 150000)
 	for i := 0; i < n; i++ {
 		id := fmt.Sprintf("c11/seq/%d", i)
